@@ -325,7 +325,7 @@ func TestC16(t *testing.T) {
 
 	// (c) printed valid queries with whitespace fillers, and the same with a
 	// lexical error inserted at a token boundary (clause 6b)
-	badRunes := []string{"|", "!", ";", "&", "#", ",", "%", "→", "\x00", "\xA9", "@", "$", "`"}
+	badRunes := []string{"|", "!", ";", "&", "#", ",", "%", "→", "\x00", "\xA9", "@", "$", "`", "\v", "\f", "\u0085", "\u00a0", "\u2028", "\u2029", "\u3000", "\ufeff", "\u200b"}
 	st.Rapid(t, "printed-queries", cfg.N(15000, 600000), func(rt *rapid.T) {
 		tree := gen.GenTree(gen.ParseCfg).Draw(rt, "tree")
 		o := gen.Opts{Fill: gen.GenFill().Draw(rt, "fill")}
